@@ -220,10 +220,10 @@ void Local::setup_c13(World &w) {
   std::string body_default = "";
   auto addfile = [&](const std::string &n, const std::string &b, int m) { homefiles[n] = {b, m}; };
   if (fam == "select") {
-    static const char *names[] = {".qmail", ".qmail-a", ".qmail-a-default", ".qmail-a-b", ".qmail-default", ".qmail-a:b", ".qmail-a-b-default"};
-    static const char *exts[] = {"", "a", "A", "a-b", "a-b-c", "a.b", "a-", "a/../x", "default", "a-default", "a-b-", "A.B", "-", "b"};
-    int sub = w.ex->choose_n(128, BK_FREE), ei = w.ex->choose_n(14, BK_FREE);
-    for (int i = 0; i < 7; i++) if (sub & (1 << i)) addfile(names[i], std::string("./chosen") + (names[i] + 6) + "\n", 0600);
+    static const char *names[] = {".qmail", ".qmail-a", ".qmail-a-default", ".qmail-a-b", ".qmail-default", ".qmail-a:b", ".qmail-a-b-default", ".qmail-zaz"};
+    static const char *exts[] = {"", "a", "A", "a-b", "a-b-c", "a.b", "a-", "a/../x", "default", "a-default", "a-b-", "A.B", "-", "b", "ZAZ", "zaZ"};   // Z: the last letter the lower-casing must reach
+    int sub = w.ex->choose_n(128, BK_FREE) * 2 + w.ex->choose_n(2, BK_FREE), ei = w.ex->choose_n(16, BK_FREE);
+    for (int i = 0; i < 8; i++) if (sub & (1 << i)) addfile(names[i], std::string("./chosen") + (names[i] + 6) + "\n", 0600);
     ext = exts[ei]; casename = "files=" + std::to_string(sub) + " ext=" + ext;
   } else if (fam == "perm") {
     static const int fmodes[] = {0600, 0622, 0700, 0602, 0640, 0711}; static const int hmodes[] = {0755, 01755, 0757, 0775, 0700};
